@@ -135,8 +135,10 @@ def add_features_calculator(mod: fx.GraphModule, extra_rules: List[Callable] = [
             # for concatenation over the features axis the number of output features is the sum
             # of the output features of preceding layers as for flatten, this is NOT equal to the
             # input shape of this layer, when one or more predecessors are NAS-able
+            # N.B., `all_input_nodes` lists a tensor that is concatenated more than once only once
+            operands = n.args[0] if len(n.args) > 0 else n.kwargs['tensors']
             ifc = ConcatFeaturesCalculator(
-                [prev.meta['features_calculator'] for prev in n.all_input_nodes]
+                [prev.meta['features_calculator'] for prev in operands]
             )
             n.meta['features_calculator'] = ifc
         elif n.meta['shared_input_features']:
